@@ -143,8 +143,14 @@ fn test_cfg_value(text: Option<&str>, doc: &DocumentConfig) -> String {
     }
 }
 
+/// the front-matter text as serde_yaml has to see it: every line of the document has its line ending, the last one too
+/// (a block scalar that is the last entry keeps its final line break)
+fn fm_yaml(text: &str) -> String {
+    format!("{text}\n")
+}
+
 fn doc_cfg_value(text: &str) -> (String, Option<DocumentConfig>) {
-    let parsed = guarded(|| serde_yaml::from_str::<DocumentConfig>(text).map_err(|e| e.to_string())).unwrap_or_else(|p| Err(p));
+    let parsed = guarded(|| serde_yaml::from_str::<DocumentConfig>(&fm_yaml(text)).map_err(|e| e.to_string())).unwrap_or_else(|p| Err(p));
     match parsed {
         Err(_) => ("!".into(), None),
         Ok(c) => {
@@ -182,7 +188,7 @@ pub fn make_op(text: &str, real: &Real) -> String {
         for a in &cands {
             for b in &cands {
                 if a != b {
-                    let v = match (doc_cfg_value(a).1, guarded(|| serde_yaml::from_str::<DocumentConfig>(b).ok()).unwrap_or(None)) {
+                    let v = match (doc_cfg_value(a).1, guarded(|| serde_yaml::from_str::<DocumentConfig>(&fm_yaml(b)).ok()).unwrap_or(None)) {
                         (Some(da), Some(pb)) => doc_value(&da.with_overrides_from(&pb)),
                         _ => "!".to_string(),
                     };
@@ -321,11 +327,20 @@ pub struct Block {
     pub closed: bool,
 }
 
-const PROSE: &[&str] = &["- item", "> quote", "1. one", "``inline`` code", "`x` is code", "*emph* text", "#hashtag", "    - indented", "``", "`", "~~~", "--- ", "[link](x)", "$ not a test", "| a | b |", "“quoted”", "`` ` ``"];
+const PROSE: &[&str] = &["- item", "> quote", "1. one", "``inline`` code", "`x` is code", "*emph* text", "#hashtag", "    - indented", "``", "`", "~~~", "--- ", "[link](x)", "$ not a test", "| a | b |", "“quoted”", "`` ` ``",
+    // prose that starts with an inline code span of three or more backticks (CommonMark: the info string of a backtick
+    // fence holds no backtick, so these are no fence lines)
+    "```` ``` ```` is how", "```a`b", "``` `x` ```", "````` ```` `", "```` ``` ```` {x}"];
+/// the lines of `PROSE` that start with an inline code span of three or more backticks
+/// (a backtick in front of the first `{`: a brace BEHIND the backtick does not make the line a fence line; a backtick
+/// behind the first `{` belongs to the inline configuration of a fence line, see `CONFIGS`)
+const SPANS: &[&str] = &["```` ``` ```` is how", "```a`b", "``` `x` ```", "````` ```` `", "```` ``` ```` x", "```scrut `", "```` ``` ```` {x}", "```scrut ` {timeout: 1s}", "``` ``` ```"];
 const PARA: &[&str] = &["A paragraph", "another line of text", "Привет мир", "日本語のテキスト", "  indented paragraph  ", "Éclair", "x", "scrut"];
 const HEAD: &[&str] = &["Title", "A longer title", "Заголовок", "`code` title", "# nested"];
-const INFO: &[&str] = &["python", "sh", "bash {x: 1}", "пример", "пример {x}", "text with spaces", "scrut2", "Scrut", "{scrut}", "json"];
-const CONFIGS: &[&str] = &["timeout: 1s", "timeout: 2s", "keep_crlf: true", "output_stream: stderr", "timeout: 3s, detached: true", "skip_document_code: 7"];
+const INFO: &[&str] = &["python", "sh", "bash {x: 1}", "пример", "пример {x}", "text with spaces", "scrut2", "Scrut", "{scrut}", "json", "sh {a: `b`}"];
+const CONFIGS: &[&str] = &["timeout: 1s", "timeout: 2s", "keep_crlf: true", "output_stream: stderr", "timeout: 3s, detached: true", "skip_document_code: 7",
+    // a backtick inside the inline configuration: still a fence line (only the text in front of the first `{` is looked at)
+    "environment: {K: \"`\"}", "environment: {T: '```'}, timeout: 1s"];
 const GAPS: &[&str] = &[" ", "", "  ", "\t"];
 const COMMENTS: &[&str] = &["# a comment", "#", "## two", "#$ echo no"];
 const CMDS: &[&str] = &["echo hello", "true", "false", "echo 'a b'  ", "cat <<EOF", "echo привет", "x=1; echo $x", "echo '```'"];
@@ -373,10 +388,11 @@ pub fn gen_doc(rng: &mut Rng, leak_free: bool) -> Vec<Item> {
     let n = rng.range(1, 8);
     let mut items = vec![];
     if rng.chance(1, 5) {
-        let fm: Vec<String> = match rng.below(4) {
+        let fm: Vec<String> = match rng.below(5) {
             0 => vec![],
             1 => vec!["total_timeout: 5m".into()],
             2 => vec!["defaults:".into(), "  timeout: 9s".into()],
+            3 => vec!["defaults:".into(), "  environment:".into(), "    MSG: |".into(), "      hello".into()],
             _ => vec!["defaults: {keep_crlf: false}".into(), "".into(), "shell: /bin/sh".into()],
         };
         if rng.chance(1, 3) {
@@ -417,7 +433,9 @@ pub fn gen_doc(rng: &mut Rng, leak_free: bool) -> Vec<Item> {
     items
 }
 
-const FRONT: &[&[&str]] = &[&[], &["total_timeout: 5m"], &["defaults:", "  timeout: 9s"], &["defaults: {keep_crlf: false}", "", "shell: /bin/sh"]];
+const FRONT: &[&[&str]] = &[&[], &["total_timeout: 5m"], &["defaults:", "  timeout: 9s"], &["defaults: {keep_crlf: false}", "", "shell: /bin/sh"],
+    // a block scalar as the last entry: its value ends in a line break
+    &["defaults:", "  environment:", "    MSG: |", "      hello"], &["shell: |", "  /bin/sh"]];
 
 /// A document of the grammar of `C06_wellformed_tail`: complete well-formed items followed by one
 /// unterminated construct. kind 0: front-matter without closing `---` (only front-matter while no
@@ -585,7 +603,7 @@ fn expected_doc(items: &[Item]) -> Option<DocumentConfig> {
     for it in items {
         if let Item::FrontMatter(ls, _) = it {
             let text = ls.join("\n");
-            let parsed = guarded(|| serde_yaml::from_str::<DocumentConfig>(&text).ok()).unwrap_or(None)?;
+            let parsed = guarded(|| serde_yaml::from_str::<DocumentConfig>(&fm_yaml(&text)).ok()).unwrap_or(None)?;
             doc = doc.with_overrides_from(&parsed);
         }
     }
@@ -724,6 +742,18 @@ fn witnesses() -> Vec<(&'static str, &'static str, &'static str, fn(&Real) -> bo
             |r| matches!(r, Real::Ok(_, ts) if ts.len() == 1 && !ts[0].exps.is_empty()),
         ),
         (
+            "C06:inline-code-span-hides-tests",
+            "```` ``` ```` is how three backticks are written inline.\n\n```scrut\n$ true\n```\n",
+            "the first line is prose (an inline code span; the info string of a fence holds no backtick): the block behind it is one test, not the body of a code block that is never closed",
+            no_tests_ok,
+        ),
+        (
+            "C06:backtick-in-config-not-a-fence",
+            "```scrut {environment: {K: \"`\"}}\n$ true\n```\n",
+            "a backtick inside the inline configuration does not make the fence line prose: the block is one test (or the configuration is rejected), not silently skipped or reported as a block without language",
+            |r| !matches!(r, Real::Ok(_, ts) if ts.len() == 1),
+        ),
+        (
             "C06:config-dropped",
             "```scrut {timeout: 1s} \n$ true\n```\n",
             "the inline configuration followed by a blank must be applied or rejected, not silently ignored",
@@ -732,7 +762,7 @@ fn witnesses() -> Vec<(&'static str, &'static str, &'static str, fn(&Real) -> bo
     ]
 }
 
-const ALPHABET: &[&str] = &["", "text", "# h", "---", "```", "```scrut", "```scrut {timeout: 1s}", "````scrut", "```python", "``x``", "$ cmd", "> more", "out", "[1]", "# c"];
+const ALPHABET: &[&str] = &["", "text", "# h", "---", "```", "```scrut", "```scrut {timeout: 1s}", "````scrut", "```python", "``x``", "``` `x` ```", "$ cmd", "> more", "out", "[1]", "# c"];
 
 /// The binary reads Markdown documents through `FileParser` (src/bin/utils/file_parser.rs), with or without
 /// `--cram-compat`: in both modes a scrut block is ONE test, lines behind the command that start with `$ ` or `> `
@@ -837,6 +867,29 @@ pub fn run(ctx: &Ctx, prop: &str) {
             None => "error".to_string(),
         })];
         Some(case_with(prop, &text, real, extra, tags))
+    });
+    // 1c. prose lines that start with an inline code span of three or more backticks, between the items of a
+    //     well-formed document (behind the front-matter): they are prose - the tests around them are all there, with
+    //     the titles and line numbers as written (a prose line ends the run of title lines). Until the fix "the info
+    //     string of a fence holds no backtick" such a line opened a verbatim block that hid every test up to the next
+    //     line starting with as many backticks, or to the end of the document.
+    let n = if ctx.thorough { 200_000 } else { 12_000 };
+    ctx.run_stream("inline-code-span-prose", n, false, |idx| {
+        let mut rng = Rng::fork(seed, 65, idx);
+        let mut items = gen_doc(&mut rng, true);
+        let first = items.iter().position(|it| matches!(it, Item::FrontMatter(..))).map(|p| p + 1).unwrap_or(0);
+        let k = rng.range(1, 2);
+        for _ in 0..k {
+            let at = rng.range(first, items.len());
+            items.insert(at, Item::Prose(rng.pick(SPANS).to_string()));
+        }
+        let crlf = rng.chance(1, 4);
+        let final_nl = rng.chance(3, 4);
+        let text = join_doc(&render_items(&items), crlf, final_nl);
+        let real = real_parse(&text);
+        let extra = compare("C06:inline-code-span-hides-tests", "prose line that starts with an inline code span of three or more backticks", &items, &real);
+        let want = expected_doc(&items).map(|d| expected(&items, &d).len()).unwrap_or(0);
+        Some(case_with(prop, &text, real, extra, vec![format!("inline-span:lines={k}"), format!("inline-span:tests-written={}", want.min(4))]))
     });
     // 2. every line-prefix of generated documents: complete tests before the cut are all there,
     //    the cut construct is read to the end of the document
